@@ -101,7 +101,7 @@ def pipeline(ctx, mod, args):
         if not ok:
             ctx.broke("proof:lake build " + " ".join(targets), out)
         # 3. audit -----------------------------------------------------------------------------
-        hits = common.grep_forbidden(pid)
+        hits = common.grep_forbidden(pid, getattr(mod, 'DRIVER_OPS', []))
         if hits:
             ctx.broke("audit:forbidden-token", "\n".join(hits))
         if ok:
